@@ -12,6 +12,19 @@ Record srv := mkSrv {
   sv_pres : bool                     (* /server.presence/<server> exists *)
 }.
 
+(** what a server declares in /servers/<server> and what Server.is_same + the parent test of reload_server compare *)
+Record sdecl := mkDecl { d_cap : list Z; d_label : Z; d_traits : Z; d_parent : Z }.
+Fixpoint zlist_same (a b : list Z) : bool :=
+  match a, b with
+  | [], [] => true
+  | x :: a', y :: b' => Z.eqb x y && zlist_same a' b'
+  | _, _ => false
+  end.
+(* Server.is_same (labels, exact capacity, own traits) and `current_server.parent == parent` *)
+Definition same_decl (a b : sdecl) : bool :=
+  Z.eqb (d_label a) (d_label b) && zlist_same (d_cap a) (d_cap b) && Z.eqb (d_traits a) (d_traits b) &&
+  Z.eqb (d_parent a) (d_parent b).
+
 (** Node.set_state *)
 Definition set_state (m : sstate * Z) (st : sstate) (since : Z) : sstate * Z :=
   if sstate_eqb (fst m) st then (st, snd m) else (st, since).
@@ -51,6 +64,7 @@ Inductive sop :=
 | SPresence (p fresh : bool) (now : Z)     (* the presence node is created / deleted and the master processes the set *)
 | SPresRaw (p : bool)                      (* the presence node changes while no master is looking *)
 | SReload (changed : bool) (now : Z)       (* servers event for a loaded server *)
+| SReloadDecl (old new : sdecl) (now : Z)  (* the same, the decision taken by the model: replaced unless is_same *)
 | SEvent (st : sstate) (now : Z).          (* server_state event *)
 
 Definition sstep (s : srv) (o : sop) : srv :=
@@ -59,6 +73,7 @@ Definition sstep (s : srv) (o : sop) : srv :=
   | SPresence p fresh now => adjust_presence fresh now (mkSrv (sv_mem s) (sv_rec s) p)
   | SPresRaw p => mkSrv (sv_mem s) (sv_rec s) p
   | SReload changed now => if changed then load_server now s else s
+  | SReloadDecl old new now => if same_decl old new then s else load_server now s
   | SEvent st now =>
       match sv_mem s with
       | None => s
